@@ -3,3 +3,7 @@
 
 def qr_groups(tier, report, pre, rot):
     return []
+
+
+def bkldlt_groups(tier, report):
+    return []
